@@ -1,6 +1,7 @@
 package main
 
 import (
+	"fmt"
 	"go/ast"
 	"strings"
 
@@ -551,6 +552,40 @@ func runC42(c *eng.Ctx) {
 		} else {
 			c.Fail("R6", sk.Where(), "Seek returns a scanned sample exactly when t ≤ ts and mint ≤ ts", p.Pos(sk.Body.Pos()), "no return guarded by ts >= t && ts >= it.mint")
 		}
+		// chunks are skipped wholesale only when they end before the wanted time: Seek's binary search keeps the first chunk
+		// with MaxTimeMs ≥ t, and a (hypothetical) trimming of the list in reset must keep every chunk with MaxTimeMs ≥ mint
+		if ps := sk.SearchPreds(); len(ps) == 1 && ps[0] == "-1*it.chunks[startIdx + i].MaxTimeMs +1*t -1 < 0" {
+			c.Pass("R6", sk.Where(), "Seek skips exactly the chunks with MaxTimeMs < t", "")
+		} else {
+			c.Fail("R6", sk.Where(), "Seek skips exactly the chunks with MaxTimeMs < t", p.Pos(sk.Body.Pos()), "sort.Search predicates: "+strings.Join(ps, " ; "))
+		}
+		for _, fn := range []*eng.Fn{rs, ri, nx, sk} {
+			for _, target := range []string{"chunks", "it.chunks"} {
+				for _, nw := range fn.Narrowings(target) {
+					what := "a re-slicing of the chunk list drops only chunks that end before mint"
+					okLoop := nw.Search == "" && len(nw.Guards) > 0 && strings.HasSuffix(nw.Text, "[1:]")
+					for _, g := range nw.Guards {
+						if strings.Contains(g, "MaxTimeMs") && g != "+1*chunks[0].MaxTimeMs -1*mint < 0" && g != "+1*it.chunks[0].MaxTimeMs -1*it.mint < 0" {
+							okLoop = false
+						}
+					}
+					hasTimeGuard := false
+					for _, g := range nw.Guards {
+						if strings.Contains(g, "MaxTimeMs") {
+							hasTimeGuard = true
+						}
+					}
+					okSearch := nw.Search == "-1*chunks[i].MaxTimeMs +1*mint -1 < 0" || nw.Search == "-1*it.chunks[i].MaxTimeMs +1*it.mint -1 < 0"
+					if (okLoop && hasTimeGuard) || okSearch {
+						c.Pass("R6", fn.Where(), what, nw.Pos)
+					} else {
+						c.Fail("R6", fn.Where(), what, nw.Pos, nw.Text+" under {"+strings.Join(nw.Guards, " ; ")+"} search {"+nw.Search+"}")
+					}
+				}
+			}
+		}
+		rs.Only("R6", p.Store(R+"chunkedSeriesIterator.chunks"), "stores the chunk list it was given", func(l eng.Loc) bool { return nodeText(l.Node) == "it.chunks = chunks" })
+		c.Pass("R6", rs.Where(), "narrowing scan ran over reset, resetIterator, Next, Seek", fmt.Sprintf("%d site(s) today", len(rs.Narrowings("chunks"))+len(sk.Narrowings("it.chunks"))))
 		// advancing to the next chunk re-creates the chunk iterator before reading from it
 		nx.Dom("R6", eng.Node("it.idx++", func(g *eng.Graph, n ast.Node) bool { return nodeText(n) == "it.idx++" }), p.Call(R+"chunkedSeriesIterator.resetIterator"))
 		for _, m := range []string{"At", "AtHistogram", "AtFloatHistogram", "AtT"} {
@@ -599,6 +634,13 @@ func runC42(c *eng.Ctx) {
 			a := eng.CallArgsText(l)
 			return len(a) == 2 && a[0] == "sortSeries" && (a[1] == "results[0]" || a[1] == "result")
 		})
+		// Seek's binary searches keep the first sample at or after t, on both cursors
+		csk := c.Fn(R + "concreteSeriesIterator.Seek")
+		if ps := csk.SearchPreds(); len(ps) == 2 && ps[0] == "-1*c.series.floats[n + c.floatsCur].Timestamp +1*t -1 < 0" && ps[1] == "-1*c.series.histograms[n + c.histogramsCur].Timestamp +1*t -1 < 0" {
+			c.Pass("R7", csk.Where(), "Seek skips exactly the samples with timestamp < t on both cursors", "")
+		} else {
+			c.Fail("R7", csk.Where(), "Seek skips exactly the samples with timestamp < t on both cursors", p.Pos(csk.Body.Pos()), "sort.Search predicates: "+strings.Join(ps, " ; "))
+		}
 		// series-set cursor
 		csn := c.Fn(R + "concreteSeriesSet.At")
 		csn.Only("R7", eng.Return("return", func(g *eng.Graph, rs *ast.ReturnStmt) bool { return true }), "returns the series before the cursor", func(l eng.Loc) bool {
